@@ -266,4 +266,226 @@ theorem env_roundtrip (P : Bytes) (hP : P ≠ []) (var x : Bytes) (ss : Sess) (h
     unfold UBoot.env
     simp only [h3', hslice]
 
+/-! ### the Spec holds of the model -/
+
+/-- invariant of the run loop: the session is between two calls, the console's environment is the
+    reference environment, every stored value is printable -/
+structure RunInv (P : Bytes) (e : List (Bytes × Bytes)) (ss : Sess) : Prop where
+  inv : Inv P ss
+  henv : ss.con.env = e
+  vals : ∀ p ∈ e, printableB p.2 = true
+
+theorem envSet_vals (env : List (Bytes × Bytes)) (k v : Bytes) (h : ∀ p ∈ env, printableB p.2 = true)
+    (hv : printableB v = true) : ∀ p ∈ envSet env k v, printableB p.2 = true := by
+  intro p hp
+  simp only [envSet, envDel, List.mem_cons, List.mem_filter] at hp
+  rcases hp with rfl | ⟨hp, _⟩
+  · exact hv
+  · exact h p hp
+
+theorem mem_of_envGet : ∀ (env : List (Bytes × Bytes)) (k v : Bytes), envGet env k = some v → ∃ p ∈ env, p.2 = v
+  | [], _, _, h => by simp [envGet] at h
+  | (a, b) :: t, k, v, h => by
+    simp only [envGet, List.lookup] at h
+    split at h
+    · exact ⟨(a, b), List.mem_cons_self .., by simpa using h⟩
+    · obtain ⟨p, hp, hpv⟩ := mem_of_envGet t k v h
+      exact ⟨p, List.mem_cons_of_mem _ hp, hpv⟩
+
+theorem printableB_iff (args : List Bytes) (h : args.all printableB = true) : ∀ a ∈ args, a.all Hush.printable = true :=
+  fun a ha => List.all_eq_true.mp h a ha
+
+theorem special_quoting : Quote.SP ∉ UBoot.special ∧ Quote.SQ ∉ UBoot.special ∧ Quote.DQ ∉ UBoot.special
+    ∧ Hush.BS ∉ UBoot.special := by decide
+
+theorem sendable_escape (args : List Bytes) (hp : ∀ a ∈ args, a.all Hush.printable = true) :
+    sendable (Hush.escape args) = true := by
+  unfold sendable
+  rw [escape_sendable args hp]
+  rfl
+
+theorem noSpecial_escape (args : List Bytes) (hp : ∀ a ∈ args, a.all Hush.printable = true) :
+    hasSpecial (Hush.escape args) = false := by
+  unfold hasSpecial Quote.forbidden
+  rw [List.any_eq_false]
+  intro c hc
+  have := escape_avoids UBoot.special special_quoting UBootCon.special_control args hp c hc
+  simpa using this
+
+theorem verdict_tail (stopc good : Bool) (hg : good = true) (env : List (Bytes × Bytes)) :
+    (if stopc = true then Verdict.stop else if good = true then Verdict.ok env else Verdict.bad) = .ok env
+    ∨ (if stopc = true then Verdict.stop else if good = true then Verdict.ok env else Verdict.bad) = .stop := by
+  cases stopc
+  · left; simp [hg]
+  · right; rfl
+
+/-- the verdict on a command call whose observation carries the demanded value and console log -/
+theorem cmd_verdict (c : UCase) (env : List (Bytes × Bytes)) (k : Kind) (args : List Bytes) (out : Bytes)
+    (status : Nat) (o : UObs) (hne : args.isEmpty = false) (hpr : args.all printableB = true)
+    (hran : o.ran = [Ran.argv args, Ran.status])
+    (hval : (match k with
+      | .exec => decide (o.val = .rc status (text (Tty.cook out)))
+      | .exec0 => if status = 0 then decide (o.val = .out (text (Tty.cook out)))
+                  else decide (o.val = .err "command-failure")
+      | .test => decide (o.val = .bool (status == 0))) = true) :
+    specOp c env (.cmd k args out status) o = .ok env ∨ specOp c env (.cmd k args out status) o = .stop := by
+  have hp := printableB_iff args hpr
+  unfold specOp
+  simp only [sendable_escape args hp, noSpecial_escape args hp, hne, hpr, Bool.not_true, Bool.false_eq_true,
+    if_false, Bool.or_self]
+  apply verdict_tail
+  rw [Bool.and_eq_true]
+  exact ⟨hval, by rw [hran]; simp⟩
+
+theorem runOps_length : ∀ (ops : List UOp) (ss : Sess), (UBoot.runOps ops ss).length = ops.length
+  | [], _ => rfl
+  | _ :: ops, ss => by simp [UBoot.runOps, runOps_length ops]
+
+/-- one call: the verdict is `ok` (or `stop`: an early-prompt piece boundary, which the stream
+    hypothesis rules out but the Spec does not need to know), and the invariant is kept -/
+theorem runOp_spec (c : UCase) (hP : c.prompt ≠ []) (env : List (Bytes × Bytes)) (op : UOp) (ss : Sess)
+    (hri : RunInv c.prompt env ss) (hwf : wfOp c.prompt env op = true) :
+    (specOp c env op (UBoot.runOp op ss).1 = .ok (nextEnv env op) ∨ specOp c env op (UBoot.runOp op ss).1 = .stop)
+      ∧ RunInv c.prompt (nextEnv env op) (UBoot.runOp op ss).2 := by
+  have hinv0 := enter_inv c.prompt op ss hri.inv
+  cases op with
+  | cmd k args out status =>
+    simp only [wfOp, Bool.and_eq_true, Bool.not_eq_true'] at hwf
+    obtain ⟨⟨hne, hpr⟩, hgood⟩ := hwf
+    have hne' : args ≠ [] := by intro h; subst h; simp at hne
+    obtain ⟨ss', hex, hinv', hran, henv, _⟩ := exec_exact c.prompt hP args out status
+      (enter (.cmd k args out status) ss) hinv0 rfl hne' (printableB_iff args hpr) hgood
+    have hran' : ss'.con.ran = [Ran.argv args, Ran.status] := by rw [hran]; rfl
+    have henv' : ss'.con.env = env := by rw [henv]; exact hri.henv
+    have hri' : RunInv c.prompt env ss' := ⟨hinv', henv', hri.vals⟩
+    cases k with
+    | exec =>
+      have hrun : UBoot.runOp (.cmd .exec args out status) ss
+          = (obsOf (.rc status (text (Tty.cook out))) ss', ss') := by
+        unfold UBoot.runOp valOf; simp only [hex]
+      rw [hrun]
+      exact ⟨cmd_verdict c env .exec args out status _ hne hpr hran' (by simp [obsOf]), hri'⟩
+    | exec0 =>
+      by_cases h0 : status = 0
+      · subst h0
+        have hrun : UBoot.runOp (.cmd .exec0 args out 0) ss
+            = (obsOf (.out (text (Tty.cook out))) ss', ss') := by
+          unfold UBoot.runOp valOf exec0; simp only [hex, if_true]
+        rw [hrun]
+        exact ⟨cmd_verdict c env .exec0 args out 0 _ hne hpr hran' (by simp [obsOf]), hri'⟩
+      · have hrun : UBoot.runOp (.cmd .exec0 args out status) ss
+            = (obsOf (.err "command-failure") ss', ss') := by
+          unfold UBoot.runOp valOf exec0; simp only [hex, h0, if_false]; rfl
+        rw [hrun]
+        exact ⟨cmd_verdict c env .exec0 args out status _ hne hpr hran' (by simp [obsOf, h0]), hri'⟩
+    | test =>
+      have hrun : UBoot.runOp (.cmd .test args out status) ss
+          = (obsOf (.bool (status == 0)) ss', ss') := by
+        unfold UBoot.runOp valOf test; simp only [hex]
+      rw [hrun]
+      exact ⟨cmd_verdict c env .test args out status _ hne hpr hran' (by simp [obsOf]), hri'⟩
+  | env var value =>
+    cases value with
+    | some x =>
+      simp only [wfOp, Bool.and_eq_true] at hwf
+      obtain ⟨⟨⟨hv, hn⟩, hxp⟩, hgood⟩ := hwf
+      obtain ⟨ss', hex, hinv', hran, henv, _, _⟩ := env_roundtrip c.prompt hP var x
+        (enter (.env var (some x)) ss) hinv0 rfl hv hn hxp hgood
+      have hran' : ss'.con.ran
+          = [Ran.argv (setenvArgs var x), Ran.status, Ran.argv (printenvArgs var), Ran.status] := by
+        rw [hran]; rfl
+      have hrun : UBoot.runOp (.env var (some x)) ss = (obsOf (.out (decodeReplace x)) ss', ss') := by
+        unfold UBoot.runOp valOf; simp only [hex]
+      rw [hrun]
+      refine ⟨?_, ⟨hinv', ?_, ?_⟩⟩
+      · have hp : ∀ a ∈ setenvArgs var x, a.all Hush.printable = true := by
+          intro a ha
+          simp only [setenvArgs, List.mem_cons, List.not_mem_nil, or_false] at ha
+          rcases ha with rfl | rfl | rfl
+          · exact setenvB_printable
+          · exact hv
+          · exact hxp
+        unfold specOp
+        simp only [sendable_escape _ hp, noSpecial_escape _ hp, hv, hn, hxp, Bool.not_true, Bool.false_eq_true,
+          if_false, Bool.and_self]
+        apply verdict_tail
+        simp [obsOf, hran']
+      · show ss'.con.env = envSet env var x
+        rw [henv]
+        exact congrArg (fun e => envSet e var x) hri.henv
+      · exact envSet_vals env var x hri.vals hxp
+    | none =>
+      simp only [wfOp, Bool.and_eq_true] at hwf
+      obtain ⟨hv, hgood⟩ := hwf
+      have hp : ∀ a ∈ printenvArgs var, a.all Hush.printable = true := by
+        intro a ha
+        simp only [printenvArgs, List.mem_cons, List.not_mem_nil, or_false] at ha
+        rcases ha with rfl | rfl
+        · exact printenvB_printable
+        · exact hv
+      have henv0 : (enter (.env var none) ss).con.env = env := hri.henv
+      cases hcur : envGet env var with
+      | some x =>
+        rw [hcur] at hgood
+        obtain ⟨p, hpm, hpx⟩ := mem_of_envGet env var x hcur
+        have hxp : printableB x = true := by rw [← hpx]; exact hri.vals p hpm
+        obtain ⟨ss', hex, hinv', hran, henv, _⟩ := printenv_defined c.prompt hP var x
+          (enter (.env var none) ss) hinv0 rfl hv (by rw [henv0]; exact hcur) hgood
+        have hran' : ss'.con.ran = [Ran.argv (printenvArgs var), Ran.status] := by rw [hran]; rfl
+        have hslice := sliceValue_printLine var x (printable_noCrLf var hv) (printable_noCrLf x hxp)
+        have hex' : exec0 [printenvB, var] (enter (.env var none) ss)
+            = (.ok (text (Tty.cook (printLine var x))), ss') := hex
+        have hrun : UBoot.runOp (.env var none) ss = (obsOf (.out (decodeReplace x)) ss', ss') := by
+          unfold UBoot.runOp valOf UBoot.env; simp only [hex', hslice]
+        rw [hrun]
+        refine ⟨?_, ⟨hinv', by rw [henv]; exact henv0, hri.vals⟩⟩
+        unfold specOp
+        simp only [sendable_escape _ hp, noSpecial_escape _ hp, hv, hcur, Bool.not_true, Bool.false_eq_true, if_false]
+        apply verdict_tail
+        simp [obsOf, hran']
+      | none =>
+        rw [hcur] at hgood
+        obtain ⟨ss', hex, hinv', hran, henv⟩ := printenv_undefined c.prompt hP var
+          (enter (.env var none) ss) hinv0 rfl hv (by rw [henv0]; exact hcur) hgood
+        have hran' : ss'.con.ran = [Ran.argv (printenvArgs var), Ran.status] := by rw [hran]; rfl
+        have hex' : exec0 [printenvB, var] (enter (.env var none) ss) = (.error .commandFailure, ss') := hex
+        have hrun : UBoot.runOp (.env var none) ss = (obsOf (.err "command-failure") ss', ss') := by
+          unfold UBoot.runOp valOf UBoot.env; simp only [hex']; rfl
+        rw [hrun]
+        refine ⟨?_, ⟨hinv', by rw [henv]; exact henv0, hri.vals⟩⟩
+        unfold specOp
+        simp only [sendable_escape _ hp, noSpecial_escape _ hp, hv, hcur, Bool.not_true, Bool.false_eq_true, if_false]
+        apply verdict_tail
+        simp [obsOf, hran']
+
+theorem runOps_spec (c : UCase) (hP : c.prompt ≠ []) : ∀ (ops : List UOp) (env : List (Bytes × Bytes)) (ss : Sess),
+    RunInv c.prompt env ss → wfOps c.prompt env ops = true → specOps c env ops (UBoot.runOps ops ss) = true
+  | [], _, _, _, _ => rfl
+  | op :: ops, env, ss, hri, hwf => by
+    simp only [wfOps, Bool.and_eq_true] at hwf
+    obtain ⟨h1, h2⟩ := runOp_spec c hP env op ss hri hwf.1
+    unfold UBoot.runOps specOps
+    rcases h1 with h1 | h1
+    · rw [h1]
+      exact runOps_spec c hP ops _ _ h2 hwf.2
+    · rw [h1]
+      simp [runOps_length]
+
+theorem init_inv (c : UCase) (hc : 0 < c.chunk) : RunInv c.prompt [] (init c) :=
+  { inv := {
+      quiet := ⟨rfl, rfl, rfl, hc, by show 0 < Params.sendSliceSize; decide, by intro p hp; simp [init] at hp⟩
+      script := rfl, prompt := rfl, bl := rfl, line := rfl, cprompt := rfl }
+    henv := rfl
+    vals := by intro p hp; simp at hp }
+
+/-- **C19 (exec / exec0 / test / env).**  For EVERY case — any prompt, chunk size, fragmentation
+    schedule, any sequence of calls with any printable arguments, outputs, statuses, names and
+    values — that satisfies the no-early-prompt hypothesis, the model's observation satisfies the
+    specification. -/
+theorem spec_holds (c : UCase) (h : wellformed c = true) : Spec.C19 c (run c) = true := by
+  simp only [wellformed, Bool.and_eq_true, decide_eq_true_eq, Bool.not_eq_true'] at h
+  obtain ⟨⟨hc, hP⟩, hwf⟩ := h
+  have hP' : c.prompt ≠ [] := by intro hn; rw [hn] at hP; simp at hP
+  exact runOps_spec c hP' c.ops [] (init c) (init_inv c hc) hwf
+
 end C19
